@@ -43,4 +43,79 @@ PROPS = {
     },
 }
 
+
+def _lab(r, *extra):
+    return "/".join([str(r["case"].get("label", r["kind"]))] + [str(e) for e in extra])
+
+
+PROPS["C05"] = {
+    "theorem_modules": ["Sidetree.Props.C05"],
+    "prescribes": "Sidetree.jcs / Sidetree.transform (Props.C05: normalize_obj_sorted, member_order_irrelevant, escape_minimal, es6Notation)",
+    "obligations": [
+        {"name": "C05_fixedRange", "facts": ["es6FixedRange"]},
+        {"name": "C05_sortKey", "facts": ["jcsSortKey"]},
+        {"name": "C05_escapes", "facts": ["jcsAsciiEscapes", "jcsBinaryEscapes", "jcsControlFormat"]},
+    ],
+    "streams": [{"gen": "C05", "quick": 4000, "thorough": 120000}, {"gen": "C05num", "quick": 20000, "thorough": 2000000}],
+    "label": lambda r: _lab(r, (r["model"].get("bytes") or r["model"]).get("class")),
+    "nontrivial": lambda r: (r["model"].get("bytes") or r["model"]).get("class") == "ok",
+    "shape": lambda r: r["case"].get("text", r["case"].get("bits")),
+    "rule": "I-JSON texts from a structured generator (all Unicode planes incl. names whose UTF-16 order differs from code-point order and "
+            "names that are prefixes of one another; doubles from powers of ten/two and their neighbours, the 1e21/1e-6 switches, subnormals, extremes, "
+            "random bit patterns; nesting to depth 200), each value in its compact spelling and 1-3 loose spellings (member order, whitespace, escape "
+            "style, number spelling); a malformed stream; and a separate stream of raw bit patterns. Compared: output bytes of MarshalCanonical on the "
+            "text, on the decoded Go value, and of canonicalizing the output again. Non-trivial = accepted input; distinct = distinct input text/bits.",
+    "technique": "Lean 4 theorems on the JCS model (sorting, permutation invariance, escaping) + differential correspondence on bytes",
+    "level_text": "Proved in Lean for all values: canonical objects have strictly UTF-16-sorted members and the order is a strict total order on names "
+                  "(UTF-16 encoding injective); the canonical form does not depend on input member order (at top level or nested); duplicate names are refused; "
+                  "escaping is minimal with the RFC 8785 forms; equivalent values give identical bytes; the ES6 notation table. NOT proved: the parse∘print round trip "
+                  "(fixed point / same value) and shortest-digit correctness of the number formatter; these rest on the correspondence stream, which compares "
+                  "every case's re-canonicalized output and value-route output byte for byte against the implementation.",
+    "level_note": "Trusted: Lean kernel; extractor; harness. Model strictness: RFC 8259 grammar (the library also accepts some non-JSON number spellings, outside the "
+                  "property's I-JSON quantifier and not generated); inputs with lone surrogates or invalid UTF-8 are out of domain. Inputs capped at 64 KiB.",
+    "trusted": ["strconv.FormatFloat / ParseFloat only on the harness side to spell generated doubles"],
+}
+
+PROPS["C06"] = {
+    "theorem_modules": ["Sidetree.Props.C06"],
+    "prescribes": "Sidetree.Hashing.* (Props.C06: model_multihash_def, valid_iff, code_of_hash, computed_using_iff)",
+    "obligations": [
+        {"name": "C06_supportedCodes", "facts": ["hashSupportedCodes"]},
+        {"name": "C06_validCompare", "facts": ["isValidCompare", "isValidCalls"]},
+    ],
+    "streams": [{"gen": "C06", "quick": 6000, "thorough": 200000}],
+    "label": lambda r: _lab(r, "valid" if r["model"].get("valid") else "invalid", "code" if r["model"].get("code") is not None else "nocode"),
+    "shape": lambda r: [r["case"]["value"], r["case"]["hash"], r["case"]["code"]],
+    "rule": "harness-built JSON values (own JCS via encoding/json on a restricted alphabet, own SHA-2/multihash) in compact and loose spellings; hashes: correct, "
+            "for a single-point modification of the value, other algorithm in the prefix, other algorithm, unsupported codes (0,0x11,0x13,0x14,0x16,0x20,0xb220,2^20), "
+            "bad alphabet/padding, wrong length field, truncated/extended digest, non-minimal/short/overlong varint, CR/LF and trailing-bit variants, digest bit flips, "
+            "non-canonicalizable values. Compared: CalculateModelMultihash, IsValidModelMultihash, GetMultihashCode, IsComputedUsingMultihashAlgorithms, docutil.CalculateID. "
+            "Every case is non-trivial (each exercises decode + recompute); distinct = distinct (value text, hash, code).",
+    "technique": "Lean 4 theorems parametric in the hash family (base64url/varint/multihash round trips by induction) + differential correspondence with real SHA-2",
+    "level_text": "Proved in Lean for every value, hash string and hash family with codes < 2^63 and digests < 2^31 bytes: the model multihash formula and the error for "
+                  "unsupported codes; validation succeeds iff the string is the hash computed from a value with the same canonical form under the code in its own prefix "
+                  "(or an explicit collision is exhibited); code_of_hash; computed-using iff; everything that validates is a well-formed encoded multihash; "
+                  "base64url, varint and multihash decode∘encode = id (unbounded, by induction). SHA-2 itself is executable-only and compared byte for byte with Go.",
+    "level_note": "Trusted: Lean kernel; extractor; harness's own SHA-2 (Go stdlib). Collision resistance of SHA-2 is not assumed: conclusions carry an explicit collision alternative.",
+}
+
+PROPS["C04"] = {
+    "theorem_modules": ["Sidetree.Props.C04"],
+    "prescribes": "Sidetree.Hashing.commitment / revealValue / commitmentFromReveal (Props.C04.commitment_of_reveal)",
+    "obligations": [
+        {"name": "C04_commitmentShape", "facts": ["commitmentInnerHash", "commitmentFromRevealCalls"]},
+    ],
+    "streams": [{"gen": "C04", "quick": 4000, "thorough": 150000}],
+    "label": lambda r: _lab(r, "c" if r["model"].get("commitment") else "noc", "fr" if r["model"].get("from_reveal") else "nofr"),
+    "shape": lambda r: [r["case"]["jwk"], r["case"]["code"], r["case"]["rv"]],
+    "rule": "JWKs of the five key types (with/without nonce of several sizes, Ed25519 with empty y, RSA-shaped, extra members, empty), both algorithms and unsupported codes; "
+            "reveal values: own, another key's, unsupported code, malformed, random digest of several lengths. Compared: GetCommitment, GetRevealValue, "
+            "GetCommitmentFromRevealValue (given and own). All cases non-trivial; distinct = distinct (jwk, code, rv).",
+    "technique": "Lean 4 theorems parametric in the hash family + differential correspondence with real SHA-2",
+    "level_text": "Proved in Lean: reveal = multihash(H(JCS(jwk))), commitment = multihash(H(H(JCS(jwk)))), commitmentFromReveal(reveal(k)) = commitment(k) for every key and "
+                  "supported code; keys with different canonical JWK (any member, nonce included) have different commitments and reveal values or an explicit collision exists. "
+                  "The chain statement about Parser.GetRevealValue/GetCommitment is checked by the `chain` correspondence stream once the parser model is in scope (see level_note).",
+    "level_note": "Trusted: Lean kernel; extractor; harness. The parser-level chain half currently rests on correspondence only.",
+}
+
 NOT_CLAIMED = {}
